@@ -79,7 +79,9 @@ def join_score(ck):
         v = pa.value
         w = where(fn, pa.node)
         conds = [c if tv else T.mk_not(c) for c, tv, _ in pa.state.assumptions]
-        if v in (neg_inf, T.p_neg(("call", "float", (C("inf"),), ()))):
+        if v in (neg_inf, T.p_neg(("call", "float", (C("inf"),), ())), ("call", "float", (C("-inf"),), ()),
+                 T.p_neg(T.mk_attr(("ext", "numpy"), "inf")), T.p_neg(("call", "float", (C("infinity"),), ())),
+                 ("call", "float", (C("-infinity"),), ())):
             n_inf += 1
             ok = conds == [want_overlap]
             if ok:
@@ -202,13 +204,18 @@ def dp(ck):
     want_prefix = ("slice", ordered, T.NONE, V(i_name), T.NONE)
     has_prefix = any(x == want_prefix for x in T.subterms(it))
     other_slices = [x for x in T.subterms(it) if x[0] == "slice"]
-    if has_prefix:
+    by_index = it in (T.mk_call("range", [V(i_name)]), T.mk_call("range", [C(0), V(i_name)]))   # for j in range(i): ordered[j]
+    if has_prefix or by_index:
         ck.ok("C14.4", short(fn) + ":prefix", where(fn, inner), "predecessors are taken from ordered[:i] (a segment never precedes itself)")
     else:
         ck.violation("C14.4", short(fn) + ":prefix", where(fn, inner), "predecessors are not restricted to the proper prefix ordered[:i]",
                      found=T.show(it)[:200], required=T.show(want_prefix)[:200])
-    j_name = inner.target.elts[0].id if isinstance(inner.target, ast.Tuple) else None
+    j_name = inner.target.elts[0].id if isinstance(inner.target, ast.Tuple) else (
+        inner.target.id if isinstance(inner.target, ast.Name) and by_index else None)
     prev_name = inner.target.elts[1].id if isinstance(inner.target, ast.Tuple) else None
+    prev_terms = [V(prev_name)] if prev_name else []
+    if j_name:
+        prev_terms.append(T.mk_idx(ordered, V(j_name)))
     # (c) strict improvement
     ifs = [s for s in inner.body if isinstance(s, ast.If)]
     if len(ifs) != 1 or cum_name is None:
@@ -236,7 +243,8 @@ def dp(ck):
     # candidate = cumulated[j] + joinScore(previous, current)
     joins = [x for x in T.subterms(cand) if x[0] == "app" and x[1].endswith("SequentialityScorer.getScore")]
     ok = bool(joins) and cand == T.p_add(T.mk_idx(V(cum_name), V(j_name)), joins[0]) and \
-        dict(joins[0][3]) == {"previousSegment": V(prev_name), "currentSegment": V(cur_name)}
+        dict(joins[0][3]).get("currentSegment") in (V(cur_name), T.mk_idx(ordered, V(i_name))) and \
+        dict(joins[0][3]).get("previousSegment") in prev_terms
     ck.judge(ok, "C14.4", short(fn) + ":candidate", where(fn, inner),
              "candidate = cumulated[j] + joinScore(previous=j-th, current=i-th)", found=T.show(cand)[:240],
              required=f"{cum_name}[{j_name}] + getScore({prev_name}, {cur_name})")
@@ -255,16 +263,37 @@ def dp(ck):
     ck.judge(ok, "C14.4", short(fn) + ":own-score", where(fn, outer), "the segment's own score is added exactly once",
              found="; ".join(ast.unparse(s) for s in adds) or "no addition", required=f"{cum_name}[{i_name}] += {cur_name}.segmentScore")
     # (e) back-tracking until None
+    from ..norm import is_new_helper
+    bt_fn = fn
     whiles = [x for x in fn.node.body if isinstance(x, ast.While)]
+    if not whiles:
+        # the back-tracking may have been moved into a helper that did not exist on the pinned tree
+        for node in ast.walk(fn.node):
+            if isinstance(node, ast.Call):
+                for c in ctx.cg.resolve_call(fn, node):
+                    if c.kind == "fn" and is_new_helper(c.fn) and any(isinstance(x, ast.While) for x in ast.walk(c.fn.node)):
+                        bt_fn = c.fn
+                        whiles = [x for x in c.fn.node.body if isinstance(x, ast.While)]
     if len(whiles) != 1:
         raise AnalysisError(f"{fn.where}: back-tracking loop not found")
     wt = whiles[0].test
-    ok = isinstance(wt, ast.Compare) and isinstance(wt.ops[0], ast.IsNot) and isinstance(wt.comparators[0], ast.Constant) \
+    walrus = isinstance(wt, ast.Compare) and isinstance(wt.ops[0], ast.IsNot) and isinstance(wt.comparators[0], ast.Constant) \
         and wt.comparators[0].value is None and isinstance(wt.left, ast.NamedExpr) and isinstance(wt.left.value, ast.Subscript) \
         and ast.unparse(wt.left.value.slice) == wt.left.target.id
-    ck.judge(ok, "C14.4", short(fn) + ":backtrack", where(fn, whiles[0]),
+    # plain form:  while k is not None: ...; k = previous[k]   (k is the only thing the loop test looks at, and the body's last
+    # assignment to k follows the predecessor link of k)
+    plain = False
+    if isinstance(wt, ast.Compare) and isinstance(wt.ops[0], ast.IsNot) and isinstance(wt.comparators[0], ast.Constant) \
+            and wt.comparators[0].value is None and isinstance(wt.left, ast.Name):
+        k = wt.left.id
+        assigns = [x for x in whiles[0].body if isinstance(x, ast.Assign) and len(x.targets) == 1
+                   and isinstance(x.targets[0], ast.Name) and x.targets[0].id == k]
+        plain = len(assigns) == 1 and isinstance(assigns[0].value, ast.Subscript) and ast.unparse(assigns[0].value.slice) == k \
+            and not any(isinstance(x, (ast.Break, ast.Continue)) for x in ast.walk(whiles[0]))
+    ok = walrus or plain
+    ck.judge(ok, "C14.4", short(fn) + ":backtrack", where(bt_fn, whiles[0]),
              "back-tracking follows the predecessor links until None (each segment at most once: links go to smaller indices)",
-             found=ast.unparse(wt), required="(k := previous[k]) is not None")
+             found=ast.unparse(wt), required="(k := previous[k]) is not None   /   while k is not None: ...; k = previous[k]")
     # (f) empty segments pass-through with complementary predicates
     rets = [pa for pa in explore(ck, fn, unroll=(0,)) if pa.outcome == "return"]
     n_final = 0
